@@ -309,6 +309,9 @@ func (e *Engine) runTargets(ts []target, mode string) *checkResult {
 			for _, w := range dedup(fx.waived) {
 				res.assumed = append(res.assumed, displayKey(fx.key)+" (obligation class waived) "+w)
 			}
+			for _, w := range dedup(fx.notes) {
+				res.assumed = append(res.assumed, displayKey(fx.key)+" (modelling note) "+w)
+			}
 		}(fx)
 		if fx.con != nil && hasFlag(fx.con, "nosafety") {
 			res.nosafety = append(res.nosafety, displayKey(fx.key))
